@@ -602,6 +602,14 @@ func main() {
 		concMain(os.Args[2:])
 		return
 	}
+	if len(os.Args) > 1 && os.Args[1] == "faultprobe" {
+		faultProbe()
+		return
+	}
+	if len(os.Args) > 1 && os.Args[1] == "faults" {
+		faultsMain(os.Args[2:])
+		return
+	}
 	if len(os.Args) > 1 && os.Args[1] == "realms" {
 		realmsMain(os.Args[2:])
 		return
